@@ -1427,10 +1427,13 @@ class TimeYyDddSssss(TimeFormat):
         if val2 is not None:
             raise ValueError(f"val2 should be None (not {val2}) for format {fmt}")
 
+        if isinstance(val, str):
+            return cls._yds2jd(val)
+
         try:
             return np.array([cls._yds2jd(v) for v in val]).T
         except TypeError:
-            cls._yds2jd(val)
+            return cls._yds2jd(val)
 
     @classmethod
     @lru_cache()
@@ -1477,10 +1480,13 @@ class TimeYyyyDddSssss(TimeFormat):
         if val2 is not None:
             raise ValueError(f"val2 should be None (not {val2}) for format {fmt}")
 
+        if isinstance(val, str):
+            return cls._yds2jd(val)
+
         try:
             return np.array([cls._yds2jd(v) for v in val]).T
         except TypeError:
-            cls._yds2jd(val)
+            return cls._yds2jd(val)
 
     @classmethod
     @lru_cache()
